@@ -18,6 +18,8 @@ type Interp struct {
 	la    *sbase.BucketLeapArray
 	views []*sbase.SlidingWindowMetric
 	nodes []*stat.BaseStatNode
+	// readable views of each node: nviews[k][0] = DefaultMetric(), the rest were returned by GenerateReadStat
+	nviews [][]base.ReadStat
 }
 
 func New() vh.Interp {
@@ -26,7 +28,7 @@ func New() vh.Interp {
 	return &Interp{clk: c}
 }
 
-func (it *Interp) Reset() { it.la = nil; it.views = nil; it.nodes = nil }
+func (it *Interp) Reset() { it.la = nil; it.views = nil; it.nodes = nil; it.nviews = nil }
 
 func ev(s string) base.MetricEvent {
 	switch s {
@@ -44,6 +46,18 @@ func ev(s string) base.MetricEvent {
 	panic("bad event " + s)
 }
 
+func viewErr(err error) string {
+	switch err {
+	case base.IllegalStatisticParamsError:
+		return "err 1"
+	case base.IllegalGlobalStatisticParamsError:
+		return "err 2"
+	case base.GlobalStatisticNonReusableError:
+		return "err 3"
+	}
+	return "err ?"
+}
+
 func (it *Interp) Step(t []string, op string) string {
 	switch t[0] {
 	case "la.new":
@@ -51,6 +65,7 @@ func (it *Interp) Step(t []string, op string) string {
 		it.la = sbase.NewBucketLeapArray(uint32(vh.U(t[1])), uint32(vh.U(t[2])))
 		it.views = nil
 		it.nodes = nil
+		it.nviews = nil
 		// BaseStatNode takes its array geometry from the global configuration
 		cfg := config.NewDefaultConfig()
 		cfg.Sentinel.Stat.GlobalStatisticSampleCountTotal = uint32(vh.U(t[1]))
@@ -58,8 +73,37 @@ func (it *Interp) Step(t []string, op string) string {
 		config.ResetGlobalConfig(cfg)
 		return ""
 	case "node":
-		it.nodes = append(it.nodes, stat.NewBaseStatNode(uint32(vh.U(t[1])), uint32(vh.U(t[2]))))
+		n := stat.NewBaseStatNode(uint32(vh.U(t[1])), uint32(vh.U(t[2])))
+		it.nodes = append(it.nodes, n)
+		it.nviews = append(it.nviews, []base.ReadStat{n.DefaultMetric()})
 		return ""
+	case "ngen":
+		k := vh.U(t[1])
+		rs, err := it.nodes[k].GenerateReadStat(uint32(vh.U(t[2])), uint32(vh.U(t[3])))
+		if err != nil {
+			return viewErr(err)
+		}
+		if rs == nil {
+			return "nil"
+		}
+		it.nviews[k] = append(it.nviews[k], rs)
+		return "ok"
+	case "ngread":
+		// only what the base.ReadStat interface offers
+		rs := it.nviews[vh.U(t[1])][vh.U(t[2])]
+		switch t[3] {
+		case "sum":
+			return fmt.Sprint(rs.GetSum(ev(t[4])))
+		case "qps":
+			return vh.FBits(rs.GetQPS(ev(t[4])))
+		case "prevqps":
+			return vh.FBits(rs.GetPreviousQPS(ev(t[4])))
+		case "minrt":
+			return fmt.Sprint(int64(rs.MinRT()))
+		case "avgrt":
+			return vh.FBits(rs.AvgRT())
+		}
+		panic("bad op " + op)
 	case "nread":
 		n := it.nodes[vh.U(t[1])]
 		switch t[2] {
@@ -82,15 +126,7 @@ func (it *Interp) Step(t []string, op string) string {
 	case "view":
 		m, err := sbase.NewSlidingWindowMetric(uint32(vh.U(t[1])), uint32(vh.U(t[2])), it.la)
 		if err != nil {
-			switch err {
-			case base.IllegalStatisticParamsError:
-				return "err 1"
-			case base.IllegalGlobalStatisticParamsError:
-				return "err 2"
-			case base.GlobalStatisticNonReusableError:
-				return "err 3"
-			}
-			return "err ?"
+			return viewErr(err)
 		}
 		it.views = append(it.views, m)
 		return "ok"
